@@ -32,10 +32,12 @@ func checkC20(c *Ctx) {
 	c.Rule("C20/R7", "every in-repo fs.Writer.CloseWithError discards: it never publishes the file and, where the file already exists on disk, removes it")
 
 	c.Rule("C20/R9", "a file without benchmark lines fails the upload: the function that stores one file returns success only where that file's record count is known to be non-zero (or returns the count and every caller tests it)")
+	c.Rule("C20/R10", "an aborted upload stays invisible without hiding a committed one (same rule as C19/R8): in the upload listing the filter on the per-upload record count comes before every LIMIT, so the hidden rows of failed uploads use up no places")
 	c.Rule("C20/R8", "an upload ID is never handed out twice: the statement that creates the Uploads row is a plain INSERT (no REPLACE, no OR REPLACE/IGNORE, no ON CONFLICT/ON DUPLICATE KEY), so an ID that already exists is refused by the primary key instead of silently replacing the committed upload (and, through ON DELETE CASCADE, its records)")
 	pats := []string{"./storage", "./storage/app", "./storage/db", "./storage/fs", "./storage/fs/local", "./storage/benchfmt"}
 	p := mustLoad(c, loadOpts{}, pats...)
 	c20(c, p)
+	c.Under("C19/R8", "C20/R10", func() { c19Limit(c, p) })
 	if c.Tier == "thorough" && c.override == nil {
 		if p2, err := load(c, loadOpts{tags: "appengine"}, pats...); err == nil {
 			c20Dropped(c, p2)
